@@ -18,7 +18,7 @@ fn run_quiet(case: &MacCase) -> (World, RunStats, Option<Violation>) {
         if let OpResult::Unexpected(msg) = &rec.result {
             if msg.starts_with("roundtrip-") {
                 let kind = msg.split(':').next().unwrap_or("roundtrip").to_string();
-                violation = Some(Violation::new(if kind == "roundtrip-field" || kind == "roundtrip-text" { "C20.roundtrip-field" } else { "C20.roundtrip-refused" }, &kind, format!("operation #{idx}: {msg}")));
+                violation = Some(Violation::new(if kind == "roundtrip-field" || kind == "roundtrip-text" { "C20.roundtrip-field" } else if kind == "roundtrip-reordered" { "C20.roundtrip-reordered" } else { "C20.roundtrip-refused" }, &kind, format!("operation #{idx}: {msg}")));
                 break;
             }
         }
